@@ -677,6 +677,12 @@ def cli_scope(res, pid, rng, tier):
                 items.append((4, a, str(ipaddress.IPv4Address(a)), "ip address {a}"))
         text = "".join(t.format(a=txt) + "\n" for _, _, txt, t in items)
         files_in = {"r1.cfg": text}
+        sub_addrs = []
+        if pid in ("C17", "C03"):
+            # files in sub directories, with addresses that occur in no top-level file: one run, one map
+            sub_addrs = [ipgen_rand4(rng) for _ in range(5)]
+            files_in[os.path.join("site1", "pop", "r2.cfg")] = "".join("ntp server %s\n" % ipaddress.IPv4Address(a_) for a_ in sub_addrs[:3])
+            files_in[os.path.join("site2", "r3.cfg")] = "".join("logging host %s\n" % ipaddress.IPv4Address(a_) for a_ in sub_addrs[3:])
         if pid == "C17" and r % 2 == 1:
             files_in["blob.bin"] = "\udcff\udcfe binary"       # written as undecodable bytes: this file fails, the map must still be complete
         stale_dump_used = stale
@@ -765,9 +771,29 @@ def cli_scope(res, pid, rng, tier):
                 if m.get(canon) != tok:
                     fails.append(dict(meta, kind="replaced address missing from the dump file or listed with another image",
                                       address=canon, used=tok, listed=m.get(canon)))
+            for rel_, addrs_ in ((os.path.join("site1", "pop", "r2.cfg"), sub_addrs[:3]), (os.path.join("site2", "r3.cfg"), sub_addrs[3:])):
+                if pid != "C17" or not addrs_:
+                    continue
+                lo_ = outs.get(rel_, "").split("\n")[:-1]
+                if len(lo_) != len(addrs_):
+                    fails.append(dict(meta, kind="a file in a sub directory was not anonymized into the same relative path", file=rel_))
+                    continue
+                for a_, l_ in zip(addrs_, lo_):
+                    canon, tok = str(ipaddress.IPv4Address(a_)), l_.split(" ")[-1]
+                    if tok != canon and m.get(canon) != tok:
+                        fails.append(dict(meta, kind="replaced address missing from the dump file or listed with another image",
+                                          file=rel_, address=canon, used=tok, listed=m.get(canon)))
         elif pid == "C17":
             fails.append(dict(meta, kind="dump file not written"))
     return dis, fails
+
+
+def ipgen_rand4(rng):
+    """a random IPv4 value that is no mask and outside the private blocks"""
+    while True:
+        a = rng.getrandbits(32)
+        if a not in SPEC_MASKS and not ipaddress.IPv4Address(a).is_private and (a >> 24) not in (0, 10, 127, 172, 192) and (a >> 28) < 14:
+            return a
 
 
 def mask_scope(res, pid, rng, tier):
